@@ -187,6 +187,11 @@ def fanOutTrace (cfg : RCfg) : List Entry → Nat → List Worker → Exists →
     let (w', ex', ok) := workerStep cfg w ex e
     (idx', w'.log.drop w.log.length) :: (if ok then fanOutTrace cfg es idx' (ws.set idx' w') ex' else [])
 
+/-- the schedule "entry after entry, in snapshot order" of a fan-out trace: every request
+    tagged with the worker (connection) that issues it -/
+def schedOf (tr : List (Nat × List Cmd)) : List (Nat × Cmd) :=
+  tr.flatMap (fun p => p.2.map (fun c => (p.1, c)))
+
 /-- `sendRdb` on a snapshot: per-worker request logs and success (all entries
     applied and `Done` reached) -/
 def sendRdb (d : DCfg) (cfg : RCfg) (pre : Exists) (bs : Bytes) : List (List Cmd) × Bool :=
